@@ -1,5 +1,6 @@
 import Driver.Resolve
 import Driver.Sched
+import Driver.Output
 /-! Line protocol: `<op> <tok>*` in, one line out (`bad-op` for anything not understood). -/
 open Driver
 
@@ -10,6 +11,7 @@ def dispatch (line : String) : String :=
     let r :=
       if op.startsWith "resolve." then Driver.Resolve.handle op args
       else if op.startsWith "sched." then Driver.Sched.handle op args
+      else if op.startsWith "output." then Driver.Output.handle op args
       else none
     r.getD "bad-op"
 
